@@ -118,8 +118,16 @@ func decode(p proto, b []byte, t reflect.Type, strict bool) (reflect.Value, outc
 	o.sig, o.stack = core.Guard(func() {
 		if strict {
 			br := bytes.NewReader(b)
-			d := thrift.NewDecoder(p.p.NewReader(br))
-			d.SetStrict(true)
+			var d *thrift.Decoder
+			if len(b)%2 == 0 {
+				d = thrift.NewDecoder(p.p.NewReader(br))
+				d.SetStrict(true)
+			} else {
+				// strictness is a property of the Decoder, not of the reader it started with
+				d = thrift.NewDecoder(protocols[(len(b)/2)%len(protocols)].p.NewReader(bytes.NewReader(nil)))
+				d.SetStrict(true)
+				d.Reset(p.p.NewReader(br))
+			}
 			o.err = d.Decode(out.Interface())
 		} else {
 			o.err = thrift.Unmarshal(p.p, b, out.Interface())
@@ -399,7 +407,7 @@ func addUnknown(r *core.Rand, n tspec.Node, t reflect.Type, count *int) tspec.No
 }
 
 func runUnknown(c *core.Case) {
-	t, ok := genType(c, ttypes.Cfg{MaxDepth: 2, MaxFields: 6, Embedding: true})
+	t, ok := genType(c, ttypes.Cfg{MaxDepth: 2, MaxFields: 6, Embedding: true, Unions: c.Index%3 == 0})
 	if !ok {
 		return
 	}
@@ -794,6 +802,10 @@ func runBombs(c *core.Case) {
 		} `thrift:"7"`
 	}
 	t := reflect.TypeOf(T{})
+	if c.Index%4 == 1 {
+		unknownBombs(c, t)
+		return
+	}
 	sizes := []uint32{1 << 16, 1 << 20, 1 << 24, 1 << 27, 1<<31 - 1, 1 << 31, 1<<32 - 1, 0xfffffff0}
 	size := sizes[r.Intn(len(sizes))]
 	field := r.Range(1, 7)
@@ -893,6 +905,82 @@ func runBombs(c *core.Case) {
 		c.Count("size-bombs.rejected", 1)
 		c.Distinct(core.Mix(uint64(size), uint64(field)<<8|uint64(len(tail))), true)
 	}
+}
+
+// unknownBombs: the oversized collection sits in a field the target does not declare (at the top
+// level or inside an undeclared struct), its elements have a fixed width, and the announced count
+// times that width does not fit in 32 bits; zero, one or two elements are really there, then the
+// struct ends properly. Skipping it must fail: the input ends long before the collection does.
+func unknownBombs(c *core.Case, t reflect.Type) {
+	r := c.Rng
+	be := func(v uint32) []byte { return []byte{byte(v >> 24), byte(v >> 16), byte(v >> 8), byte(v)} }
+	uv := func(v uint64) []byte {
+		var b []byte
+		for v >= 0x80 {
+			b = append(b, byte(v)|0x80)
+			v >>= 7
+		}
+		return append(b, byte(v))
+	}
+	size := []uint32{0x20000001, 0x7FFFFFFF, 0x10000000, 0x40000000, 0x40000001, 0x08000001, 0x30000000, 0x10000001, 0x7FFFFFFE, 0x00010000}[r.Intn(10)]
+	present := r.Intn(3)
+	isSet := r.Bool()
+	nested := r.Bool()
+	for _, p := range protocols {
+		var b []byte
+		var width int
+		if !p.compact {
+			et := []byte{2, 3, 4, 6, 8, 10}[r.Intn(6)]
+			width = map[byte]int{2: 1, 3: 1, 4: 8, 6: 2, 8: 4, 10: 8}[et]
+			if nested {
+				b = append(b, 12, 0, 98) // undeclared struct 98 {
+			}
+			code := byte(15)
+			if isSet {
+				code = 14
+			}
+			b = append(b, code, 0, 99, et)
+			b = append(b, be(size)...)
+		} else {
+			et := []byte{1, 3, 7}[r.Intn(3)]
+			width = map[byte]int{1: 1, 3: 1, 7: 8}[et]
+			if nested {
+				b = append(b, 0x0C, 0xC4, 0x01) // undeclared struct 98 {
+			}
+			code := byte(9)
+			if isSet {
+				code = 10
+			}
+			b = append(b, code, 0xC6, 0x01, 0xF0|et)
+			b = append(b, uv(uint64(size))...)
+		}
+		for i := 0; i < present*width; i++ {
+			b = append(b, 1)
+		}
+		if nested {
+			b = append(b, 0) // } of the undeclared struct
+		}
+		b = append(b, 0)
+		cls := fmt.Sprintf("size-bomb|undeclared|width%d", width)
+		c.Journal(fmt.Sprintf("%s|%s|%#x", cls, p.name, size))
+		_, o := decode(p, b, t, false)
+		if !checkTotal(c, cls, p, b, t, o) {
+			return
+		}
+		if o.err == nil {
+			c.Violation(cls+"|"+p.name, "accepted", fmt.Sprintf("Unmarshal(%s) accepts %x: an undeclared collection announces %d elements of %d bytes, %d are present", p.name, b, size, width, present), map[string]any{"input_hex": fmt.Sprintf("%x", b)})
+			return
+		}
+		c.Count("size-bombs.undeclared.rejected", 1)
+		c.Distinct(core.Mix(uint64(size), uint64(width)<<8|uint64(present)<<4|uint64(b2i(nested))<<1|uint64(b2i(isSet))), true)
+	}
+}
+
+func b2i(b bool) int {
+	if b {
+		return 1
+	}
+	return 0
 }
 
 func runRandom(c *core.Case) {
@@ -998,7 +1086,7 @@ func runReaders(c *core.Case) {
 func init() {
 	core.Register(&core.Monitor{
 		Prop:    "C08",
-		Rule:    "prefixes (struct targets, and every third case a bare list/set/map/string/number/pointer target): every prefix (all of them up to 400 bytes, 200 evenly spaced beyond) of a specification-conformant encoding of a generated value, both protocols: no panic, an error, io.EOF only for the empty input and an error that Is io.ErrUnexpectedEOF otherwise; the whole encoding decodes to the value; with 1-4 bytes appended Unmarshal reports an error; a bare list/set/map is also decoded into a target with other element types (the elements are skipped): accepted in full, unexpected-EOF for every prefix. unknown-fields: fields with undeclared ids (negative, below/above/between the declared ones, at 63/64/65/127/128/129/32767) holding values of every thrift type incl. nested lists, sets, maps and structs are inserted into every struct level of the encoding: the decoded value is unchanged (strict and non-strict). required: the encoding with one required field removed yields *MissingField naming that field; an 8-step history of failing and succeeding decodes of one type gives each step the outcome it has in isolation; one field re-typed (another kind, or the same collection kind with other element types) yields *TypeMismatch from a strict Decoder, also when the field belongs to a struct nested in map values, list elements or other structs; a non-strict one returns no error, leaves that field zero and decodes every other field as before. mutated / random: bit flips, byte substitutions, deletions, huge big-endian and varint sizes spliced into valid encodings, and random bytes biased to header values: no panic; bytes allocated (runtime.MemStats.TotalAlloc around the second and later calls for a type) within 1 MiB (64 KiB of preallocation per nesting level of the decoder, with map overhead) + 4 x len(input) x (largest element size of the target type incl. one bit per id of a struct's id range + 64). size-bombs: list, set, map, string and binary headers announcing 2^16 .. 2^32-1 elements followed by 0-23 bytes, or by slightly more real elements than the decoder preallocates: rejected within the same allocation budget. readers: every Reader method of both protocols on short arbitrary inputs: no panic, <= 256 KiB allocated, no negative sizes, fixed-width reads fail on short input.",
+		Rule:    "prefixes (struct targets, and every third case a bare list/set/map/string/number/pointer target): every prefix (all of them up to 400 bytes, 200 evenly spaced beyond) of a specification-conformant encoding of a generated value, both protocols: no panic, an error, io.EOF only for the empty input and an error that Is io.ErrUnexpectedEOF otherwise; the whole encoding decodes to the value; with 1-4 bytes appended Unmarshal reports an error; a bare list/set/map is also decoded into a target with other element types (the elements are skipped): accepted in full, unexpected-EOF for every prefix. unknown-fields: fields with undeclared ids (negative, below/above/between the declared ones, at 63/64/65/127/128/129/32767) holding values of every thrift type incl. nested lists, sets, maps and structs are inserted into every struct level of the encoding: the decoded value is unchanged (strict and non-strict). required: the encoding with one required field removed yields *MissingField naming that field; an 8-step history of failing and succeeding decodes of one type gives each step the outcome it has in isolation; one field re-typed (another kind, or the same collection kind with other element types) yields *TypeMismatch from a strict Decoder (fresh, or made strict and then Reset onto the input), also when the field belongs to a struct nested in map values, list elements or other structs; a non-strict one returns no error, leaves that field zero and decodes every other field as before. mutated / random: bit flips, byte substitutions, deletions, huge big-endian and varint sizes spliced into valid encodings, and random bytes biased to header values: no panic; bytes allocated (runtime.MemStats.TotalAlloc around the second and later calls for a type) within 1 MiB (64 KiB of preallocation per nesting level of the decoder, with map overhead) + 4 x len(input) x (largest element size of the target type incl. one bit per id of a struct's id range + 64). size-bombs (also in undeclared fields and undeclared nested structs, with fixed-width elements whose total size overflows 32 bits): list, set, map, string and binary headers announcing 2^16 .. 2^32-1 elements followed by 0-23 bytes, or by slightly more real elements than the decoder preallocates: rejected within the same allocation budget. readers: every Reader method of both protocols on short arbitrary inputs: no panic, <= 256 KiB allocated, no negative sizes, fixed-width reads fail on short input.",
 		Trusted: []string{"harness/gen/tspec encoders for the valid encodings", "runtime.MemStats.TotalAlloc as the allocation meter (single goroutine)", "errors.Is(err, io.ErrUnexpectedEOF) as the 'unexpected-EOF class'"},
 		Subs: []core.Sub{
 			{Name: "prefixes", N: core.Const(1500, 60000), Run: runPrefixes},
